@@ -14,7 +14,7 @@ import (
 func init() {
 	register(&Prop{
 		ID:          "C03",
-		Explanation: "Decides the structure that binds a callback to the login that started it: in OAuthCallback every path that saves a session passed decodeState ok, then LoadCSRFCookie under the name derived from that state's nonce, then CheckOAuthState(that nonce)==true on that very cookie object; LoadCSRFCookie yields a CSRF only from a cookie of the requested name that decodeCSRFCookie accepted, which needs encryption.Validate ok and decrypts/unmarshals Validate's value; the hash/check/set methods each read the nonce field they are named after; the start flow sends encodeState(csrf.HashOAuthState()) and HashOIDCNonce() of the same object whose SetCookie succeeded before the redirect, and NewCSRF draws state and nonce from two separate encryption.Nonce calls; both cookie-name derivations cut the hashed state at the same constant and encodeState/decodeState agree on the field order. Added during the build: csrf.ClearCookie deletes exactly its own cookie, so completing one login leaves other outstanding logins intact (R6).",
+		Explanation: "Decides the structure that binds a callback to the login that started it: in OAuthCallback every path that saves a session passed decodeState ok, then LoadCSRFCookie under the name derived from that state's nonce, then CheckOAuthState(that nonce)==true on that very cookie object; LoadCSRFCookie yields a CSRF only from a cookie of the requested name that decodeCSRFCookie accepted, which needs encryption.Validate ok and decrypts/unmarshals Validate's value; the hash/check/set methods each read the nonce field they are named after; the start flow sends encodeState(csrf.HashOAuthState()) and HashOIDCNonce() of the same object whose SetCookie succeeded before the redirect, and NewCSRF draws state and nonce from two separate encryption.Nonce calls; both cookie-name derivations cut the hashed state at the same constant and encodeState/decodeState agree on the field order. Added during the build: csrf.ClearCookie deletes exactly its own cookie, so completing one login leaves other outstanding logins intact (R6). The Validate -> checkSignature -> checkHmac -> hmac.Equal chain the CSRF cookie rests on is checked under R2; the session-cookie sweeps that run when a login completes spare other logins' CSRF cookies (R7).",
 		NotDecided:  "the 'succeeds' direction of the biconditional and the ordering of concurrent logins (behaviour over histories); entropy of crypto/rand (trusted).",
 		Run:         runC03,
 	})
@@ -62,6 +62,7 @@ func runC03(c *Ctx) {
 	r.Rule("R2-csrf-load", "LoadCSRFCookie returns a CSRF only from a same-named cookie that decodeCSRFCookie accepted; decodeCSRFCookie needs Validate ok", 2)
 	r.Rule("R3-field-agreement", "hash/check/set methods read the nonce field they are named after", 6)
 	r.Rule("R4-start-side", "login URL carries encodeState(csrf.HashOAuthState()) and HashOIDCNonce() of the object whose cookie was set before the redirect; NewCSRF uses two Nonce calls", 6)
+	r.Rule("R7-sweeps-spare-csrf", "the session-cookie sweeps (Clear, stale-part sweep on Save) select cookies by the name(_N)? template that rejects <name>_<hash>_csrf (shared with C11.R3/R4, C10.R4)", 10)
 	r.Rule("R6-clears-own-cookie-only", "csrf.ClearCookie deletes exactly its own cookie", 2)
 	r.Rule("R5-name-agreement", "cookieName and ExtractStateSubstring cut the hashed state at the same constant; encodeState/decodeState agree on field order", 4)
 
@@ -71,6 +72,10 @@ func runC03(c *Ctx) {
 	}
 	c.checkCallbackSave("R1-callback-gating", a, FacetState, "save-needs-state-check")
 	runC03R6(c)
+	// the session-cookie sweeps must not touch other logins' CSRF cookies (<name>_<hash>_csrf): they select by the
+	// ^QuoteMeta(name)(_\d+)?$ template, whose probe set includes NAME_0_csrf and NAME_csrf as must-reject
+	runC11R3R4(c, "R7-sweeps-spare-csrf", "R7-sweeps-spare-csrf")
+	runC10R4(c, "R7-sweeps-spare-csrf")
 
 	runC03R2Rule(c, "R2-csrf-load")
 
@@ -466,6 +471,9 @@ func runC03R2Rule(c *Ctx, rule string) {
 			}
 			c.ok(rule, key, p.Exit, "Validate ok -> decrypt(value) ok -> msgpack.Unmarshal into the returned object ok")
 		})
+	}
+	if rule == "R2-csrf-load" { // under C02.R3 the chain is already run by C01.R7's rule function
+		runValidateChain(c, rule)
 	}
 
 }
